@@ -97,7 +97,7 @@ def points_for(spec, us):
     return refmodel.inverse_rosenblatt(spec, U)
 
 
-def run_eval(op, key, pool, args, ctx, tmpdir):
+def run_eval(op, key, pool, args, ctx, tmpdir, rep=0):
     """run one evaluation op on model `key`; returns a comparable result (or None); reports array mutation"""
     import virocon
 
@@ -169,7 +169,10 @@ def run_eval(op, key, pool, args, ctx, tmpdir):
             if n_dim != 2 or is_t:
                 return None
             smp = arr(np.abs(np.asarray(ghm.draw_sample(800, random_state=seed))) + 1e-3)
-            np.random.seed(seed % (2**32))
+            # AND / OR contours use Monte-Carlo marginal quantiles (global RNG): same state for both evaluations.
+            # A direct-sampling contour of a supplied sample has no random input: the repetition runs under another
+            # global RNG state and must still give the same contour
+            np.random.seed((seed + (7919 * rep if name == "ds" else 0)) % (2**32))
             if name == "ds":
                 c = virocon.DirectSamplingContour(model, op["alpha"], n=(300 if seed % 2 else None), deg_step=20, sample=smp)
             elif name == "and":
@@ -318,7 +321,7 @@ def check_history(case, ctx):
                     key = op["model"]
                     r1 = run_eval(op, key, pool, None, ctx, tmpdir)
                     mid = pool.snapshots()
-                    r2 = run_eval(op, key, pool, None, ctx, tmpdir)
+                    r2 = run_eval(op, key, pool, None, ctx, tmpdir, rep=1)
                     if not same(r1, r2):
                         ctx.violation(f"not_repeatable:{name}", f"model {key}: the same call returned different results")
                     if has_fit:
